@@ -318,7 +318,7 @@ func runC07(c *core.Ctx) {
 	}
 	if fn := c.Fn("C07.c", "snapshot", "(*Store).check"); fn != nil {
 		reads := an.CallsTo(fn, false, "snapshot/plan.ReadFromFile")
-		sweep := an.CallsTo(fn, false, "os.ReadDir")
+		sweep := anchorCalls(fn, "os.ReadDir")
 		ok := len(reads) == 1 && len(sweep) == 1
 		if ok {
 			// the sweep is not reachable before the plan test
